@@ -38,6 +38,19 @@ def tier():
     return os.environ.get("VERIF_TIER", "quick")
 
 
+def depth():
+    """multiplier of the thorough tier's case counts (VERIF_DEPTH, default 4)"""
+    try:
+        return max(1, int(os.environ.get("VERIF_DEPTH", "4")))
+    except ValueError:
+        return 4
+
+
+def T(q, t):
+    """a case count: `q` in the quick tier, `t` x depth() in the thorough tier"""
+    return q if tier() != "thorough" else int(t) * depth()
+
+
 def rng(tag=""):
     """every random choice derives from VERIF_SEED (+ a tag so streams are independent)"""
     h = hashlib.sha256(f"{seed()}|{tag}".encode()).digest()
